@@ -41,6 +41,18 @@ CHECKS = {
     "C09": ("property-based testing (Hypothesis): quadrature weights and basis integrals vs exact Gauss-Legendre "
             "integration of the reference basis and an independent transposed collocation solve",
             "Generated spaces x data; exact-integral oracle.", "3/C09", NUM_NOTE),
+    "C10": ("property-based testing (Hypothesis): FluxSurfaceAdvection.step vs an independent implementation of the "
+            "stated formula + metamorphic relations (constants, linearity, z-shift, exact circular shift)",
+            "Generated grids, radii/velocities, displacements up to many turns, rotational transform; differential + "
+            "metamorphic oracles.", "3/C10", NUM_NOTE),
+    "C12": ("property-based testing (Hypothesis): PoloidalAdvection.step vs an independent vectorised Heun / converged "
+            "implicit trapezoid, exact solutions (constant phi, rigid rotation), observed order, counted sweeps",
+            "Generated potentials/distributions/time steps; nodes within rounding distance of the radial boundary "
+            "excluded as the property states; termination only as a bounded claim in the contraction regime.",
+            "3/C12", NUM_NOTE),
+    "C13": ("property-based testing (Hypothesis): ParallelGradient vs independent field-aligned finite-difference "
+            "formula with Lagrange-derivative weights + metamorphic relations + observed convergence order",
+            "Generated orders, grids, local radial ranges from real Layouts, potentials.", "3/C13", NUM_NOTE),
     "C20": ("exhaustive enumeration of a finite box + Hypothesis far beyond it, brute-force divisor oracle, "
             "line-event budget for termination",
             "All triples of the box are decided (exhaustive:true for that sub-check); termination as a "
